@@ -1,0 +1,17 @@
+//go:build verif
+
+package mailbox
+
+import "sync/atomic"
+
+// VerifState is a read-only accessor for the verification harness in /verif:
+// (status, sysNum, userNum, suspended) of a shipped mailbox.
+func VerifState(m Mailbox) (status uint32, sysNum, userNum int32, suspended uint32, ok bool) {
+	switch v := m.(type) {
+	case *LockFree:
+		return atomic.LoadUint32(&v.status), atomic.LoadInt32(&v.sysNum), atomic.LoadInt32(&v.userNum), atomic.LoadUint32(&v.suspended), true
+	case *GlobalOrderedLockFree:
+		return atomic.LoadUint32(&v.status), atomic.LoadInt32(&v.sysNum), atomic.LoadInt32(&v.userNum), atomic.LoadUint32(&v.suspended), true
+	}
+	return 0, 0, 0, 0, false
+}
